@@ -454,8 +454,11 @@ def _a7(ctx, rep):
         for n in own_nodes(f.node):
             if not (isinstance(n, ast.Call) and (dotted(n.func) or "") in ("cp.reshape", "cvxpy.reshape") and len(n.args) >= 2):
                 continue
-            shp = n.args[1]
+            from ..astutil import deep_inline
+            shp = deep_inline(f, n.args[1])
             order = kwarg(n, "order") or (n.args[2] if len(n.args) > 2 else None)
+            if order is not None:
+                order = deep_inline(f, order)
             con = "%s: %s" % (f.name, unparse(n)[:90])
             if not (isinstance(shp, ast.Tuple) and len(shp.elts) == 2):
                 rep.info("A7", f, con, "target shape is not a 2-tuple")
@@ -470,7 +473,7 @@ def _a7(ctx, rep):
             n_sens += 1
             if order is None:
                 rep.violation("A7", f, con, "row-structured reshape without order='C': cvxpy fills the matrix column by column, so the rows are not the "
-                              "per-outcome blocks of the variable vector (with exactly two rows... only a single-row reshape would be unaffected)", node=n)
+                              "per-outcome blocks of the variable vector (only a single-row or single-column reshape is unaffected)", node=n)
             elif const(order) == "C":
                 rep.holds("A7", f, con, "row-major", node=n)
             else:
